@@ -36,6 +36,7 @@ fn generators(cfg: &Cfg) -> Vec<Generator> {
         Generator { name: "programs", total: cfg.tier.pick(1_500, 60_000), run: run_program, case_cpu_limit_s: 120 },
         Generator { name: "mutants", total: cfg.tier.pick(800, 40_000), run: run_mutants, case_cpu_limit_s: 120 },
         Generator { name: "catalogue", total: crate::props::catalogue::cases().len() as u64, run: run_catalogue, case_cpu_limit_s: 120 },
+        Generator { name: "dropped-arms", total: cfg.tier.pick(150, 1_500), run: run_dropped_arm, case_cpu_limit_s: 120 },
     ]
 }
 
@@ -183,5 +184,108 @@ fn run_catalogue(_cfg: &Cfg, index: u64, stats: &mut Stats) {
         if index == 0 {
             stats.sample(json!({"catalogue_case": case.name, "body": case.body, "end": format!("{:?}", run.end)}));
         }
+    }
+}
+
+/* ------------------------------------------------------------------------------------------------------------
+ * A match / comatch with ONE arm dropped, eliminated with exactly the constructor / destructor whose arm is gone: if
+ * check accepts it, the interpreter has nowhere to go. Directed at the coverage checker's bookkeeping over the
+ * *position* of the missing arm: 2 to 20 constructors (also with payloads, also below another constructor), every
+ * position in turn. The random mutants above drop arms too, but meet a particular position of a wide type, and then
+ * run into it, only by luck.
+ * ------------------------------------------------------------------------------------------------------------ */
+
+fn dropped_arm_text(rng_order: &[usize], n: usize, eliminated: usize, shape: usize, drop: bool) -> (&'static str, String) {
+    let payload = |k: usize| -> (&'static str, &'static str, &'static str) {
+        // (payload type, payload value, payload pattern)
+        match (k + shape) % 4 {
+            | 0 => ("Unit", "", ""),
+            | 1 => ("Int64", "7", "n"),
+            | 2 => ("Int64 * String", "7, \"s\"", "n, s"),
+            | _ => ("Unit", "", "_"),
+        }
+    };
+    let keep = |k: &usize| !(drop && *k == eliminated);
+    let mut body = String::from("begin\n");
+    match shape {
+        | 0 | 1 => {
+            // data: match on the constructor whose arm is missing
+            body.push_str("def Wide : VType = data");
+            for k in 0..n {
+                body.push_str(&format!(" | +C{k} : {}", payload(k).0));
+            }
+            body.push_str(" end that\n");
+            let scrut = format!("(+C{eliminated}({}) : Wide)", payload(eliminated).1);
+            let mut arms = String::new();
+            for k in rng_order.iter().copied().filter(keep) {
+                arms.push_str(&format!("| +C{k}({}) => ! exit {}\n", payload(k).2, k % 100));
+            }
+            body.push_str(&format!("match {scrut}\n{arms}end\nend\n"));
+            ("match", body)
+        }
+        | 2 => {
+            // the wide type below another constructor: `+Some(+Ck())` with the inner arm missing
+            body.push_str("def Wide : VType = data");
+            for k in 0..n {
+                body.push_str(&format!(" | +C{k} : Unit"));
+            }
+            body.push_str(" end that\ndef Opt : VType = data | +None : Unit | +Some : Wide end that\n");
+            let mut arms = String::from("| +None() => ! exit 101\n");
+            for k in (0..n).filter(keep) {
+                arms.push_str(&format!("| +Some(+C{k}()) => ! exit {}\n", k % 100));
+            }
+            body.push_str(&format!("match (+Some(+C{eliminated}()) : Opt)\n{arms}end\nend\n"));
+            ("nested match", body)
+        }
+        | _ => {
+            // codata: the destructor whose arm is missing is the one observed
+            body.push_str("def Obj : CType = codata");
+            for k in 0..n {
+                body.push_str(&format!(" | .d{k} : OS"));
+            }
+            body.push_str(" end that\n");
+            let mut arms = String::new();
+            for k in (0..n).filter(keep) {
+                arms.push_str(&format!("| .d{k} => ! exit {}\n", k % 100));
+            }
+            body.push_str(&format!("let o : Thk Obj = {{ comatch\n{arms}end }} in\n! o .d{eliminated}\nend\n"));
+            ("comatch", body)
+        }
+    }
+}
+
+fn run_dropped_arm(cfg: &Cfg, index: u64, stats: &mut Stats) {
+    let mut rng = Rng::for_case(cfg.seed, "C01/dropped-arms", index);
+    // sizes and positions are walked systematically, the rest is random
+    let n = 2 + (index as usize % 19); // 2 ..= 20
+    let dropped = (index as usize / 19) % n;
+    let shape = rng.below(4);
+    let mut order: Vec<usize> = (0..n).collect();
+    if shape == 1 {
+        rng.shuffle(&mut order);
+    }
+    let prelude = crate::prelude::MiniPrelude::core().text();
+    // control: with all arms the program is accepted and exits with the eliminated alternative's code
+    let (what, full) = dropped_arm_text(&order, n, dropped, shape, false);
+    let control = pipeline::check_and_run(&Sources::single(format!("{prelude}{full}")), b"", &[], 100_000);
+    if !matches!(control.run.as_ref().map(|r| &r.end), Some(End::Exit(c)) if *c as usize == dropped % 100) {
+        stats.harness_error(format!("dropped-arms control ({what} of {n}, shape {shape}) is not accepted and run to its exit code: {}", control.verdict.brief().lines().next().unwrap_or("")));
+        return;
+    }
+    let (_, text) = dropped_arm_text(&order, n, dropped, shape, true);
+    let sources = Sources::single(format!("{prelude}{text}"));
+    let result = pipeline::check_and_run(&sources, b"", &[], 100_000);
+    stats.evaluations += 1;
+    stats.count(&format!("dropped_arm_{}", result.verdict.class()));
+    stats.cover("dropped_arm_shapes", &format!("{what} of {n}"));
+    if matches!(result.verdict, pipeline::Verdict::Panic(_)) {
+        // a crash of the checker is C10's subject; here it only means no verdict
+        stats.inconclusive("checker panicked on a dropped-arm program (C10)");
+        return;
+    }
+    stats.nontrivial(format!("{what} {n} {dropped} {shape}").as_bytes());
+    if let Some(run) = &result.run {
+        stats.count("dropped_arm_accepted_and_run");
+        judge_run(stats, "dropped-arms", index, &sources, run, vec![format!("{what} with the arm at position {dropped} of {n} dropped")], &format!("{what} over {n} alternatives without the arm for the one that is eliminated (position {dropped}), accepted by check"));
     }
 }
